@@ -51,6 +51,13 @@ def prepare(spec):
         for _ in range(cfg.get('n_raw', 8)):
             alph = ''.join(t.text for t in g.terms) + ' \n?Z\x00\xff'
             datas.append(''.join(rnd.choice(alph) for _ in range(rnd.randint(0, 8))).encode('latin-1'))
+        if cfg.get('long_gap') and len(inputs) < cfg['long_gap'] and seqs:
+            # one skipped blank run (and, for regex terms, one lexeme) of more than 65535 bytes on a line, followed by more input on that line
+            s0 = max(seqs[:40], key=len)
+            k = max(1, len(s0) // 2); gap = b' ' * rnd.choice([65536, 70000, 131075])
+            datas.append(tok_bytes(g, s0[:k]) + gap + tok_bytes(g, s0[k:]))
+            datas.append(tok_bytes(g, s0[:k]) + gap + b'?' + tok_bytes(g, s0[k:]))
+            datas.append(tok_bytes(g, s0[:k]) + gap + tok_bytes(g, s0[:1]) * 2 + tok_bytes(g, s0[k:]))
         seen = set(); uniq = []
         for d in datas:
             if cfg.get('max_len') is not None and len(d) > cfg['max_len']: continue
@@ -717,7 +724,7 @@ def judge_c13(spec, gs, tbs, inputs, diags, dumps, maps, tdiffs, byk, jobs, info
                 if (a.res, a.root, a.events, a.stream) != (b.res, b.root, b.events, b.stream):
                     viol(out, g, data, 20, 'context_parse differs from parse on a grammar that ignores the context: (%s,%s,%s) vs (%s,%s,%s)' % (b.res, b.root, b.events[:100], a.res, a.root, a.events[:100]))
                 continue
-            for mode in (20, 21, 22, 23, 24, 25, 26, 27, 28, 29, 30):
+            for mode in (20, 21, 22, 23, 24, 25, 26, 27, 28, 29, 30, 31):
                 r = byk.get((gi, idx, mode))
                 if r is None: continue
                 ex = model.expect(g, tb, data, ctx_mode=mode)
@@ -729,13 +736,13 @@ def judge_c13(spec, gs, tbs, inputs, diags, dumps, maps, tdiffs, byk, jobs, info
                 cnt, copies, moves, momoves = (int(x) for x in m.groups()) if m else (None, None, None, None)
                 if (r.res == 1) != ex.ok: C['acceptance_disagreements_left_to_C01'] += 1; continue
                 cat = {20: 'lvalue', 21: 'const lvalue', 22: 'rvalue temporary', 23: 'move-only lvalue', 24: 'lvalue (verbose)', 25: 'lvalue, overload (ctx, buffer, stream)', 26: 'rvalue temporary, overload (ctx, buffer, stream)',
-                       27: 'lvalue, overload (ctx, buffer)', 28: 'named move-only object passed with std::move, overload (ctx, buffer, stream)', 29: 'named object passed with std::move, with options', 30: 'named move-only object passed with std::move, overload (ctx, buffer)'}[mode]
+                       27: 'lvalue, overload (ctx, buffer)', 28: 'named move-only object passed with std::move, overload (ctx, buffer, stream)', 29: 'named object passed with std::move, with options', 30: 'named move-only object passed with std::move, overload (ctx, buffer)', 31: 'lvalue of a class with an overloaded unary operator&'}[mode]
                 if got != want:
                     viol(out, g, data, mode, '%s context: functor log %s expected %s ("=" same object, "!" other object, c/m constness, #n calls seen so far)' % (cat, got[:250], want[:250]))
                     continue
                 if copies or moves or momoves:
                     viol(out, g, data, mode, '%s context was copied %d / moved %d times by the library' % (cat, copies, moves + momoves))
-                if mode in (20, 23, 24, 25, 27, 28, 29, 30) and cnt != ex.xcount:
+                if mode in (20, 23, 24, 25, 27, 28, 29, 30, 31) and cnt != ex.xcount:
                     viol(out, g, data, mode, '%s context: caller sees %s mutations after the call, %d contextual reductions happened' % (cat, cnt, ex.xcount))
         if len(out['samples']) < 2 and inputs[gi] and isctx:
             d = inputs[gi][len(inputs[gi]) // 2]
